@@ -99,6 +99,7 @@ def main(argv=None):
         if not a.quiet:
             print("REPRODUCED" if reproduced else "NOT REPRODUCED")
         return 1 if reproduced else 0
+    os.environ["NSLMC_TIER"] = a.tier      # inherited by the spawned workers
     res = mod.run(a.tier, seed)
     wall = time.time() - t0
     if os.environ.get("NSLMC_DUMP"):
